@@ -76,8 +76,35 @@ def main(argv=None):
         return 2
 
 
+class _SafeOut:
+    """stdout that survives a reader closing the pipe early (`| head`): the verdict is the exit status"""
+
+    def __init__(self, f):
+        self.f = f
+        self.dead = False
+
+    def write(self, s):
+        if not self.dead:
+            try:
+                return self.f.write(s)
+            except BrokenPipeError:
+                self.dead = True
+        return len(s)
+
+    def flush(self):
+        if not self.dead:
+            try:
+                self.f.flush()
+            except BrokenPipeError:
+                self.dead = True
+
+    def __getattr__(self, k):
+        return getattr(self.f, k)
+
+
 if __name__ == "__main__":
     sys.stdout.reconfigure(line_buffering=True)
+    sys.stdout = _SafeOut(sys.stdout)
     code = main()
     sys.stdout.flush()
     os._exit(code)
